@@ -131,6 +131,59 @@ class FaultyConnection:
         return getattr(self.real, name)
 
 
+class Refused(Exception):
+    pass
+
+
+class NodeState:
+    """stands in for the CoinState of a Run: add_block DELIVERS the block to a simulated node as an unsolicited data message
+    from a peer (the relay path, with its rollback); every other attribute is read from the chain state the node serves at
+    that moment.  open_request=True: the node has an unanswered block request (GetBlocks) outstanding with that very peer."""
+
+    def __init__(self, open_request=False):
+        env.import_networking()
+        from vf import simnet
+        from skepticoin.coinstate import CoinState
+        from skepticoin.networking import messages as M
+        self.simnet, self.M = simnet, M
+        simnet.install()
+        self.net = simnet.Net()
+        self.node = self.net.add("n", "10.0.0.1", CoinState.zero(), 3)
+        self.n_wires = 0
+        self.open_request = open_request
+        self.opened = 0
+        self.connect()
+
+    def connect(self):
+        self.n_wires += 1
+        self.wire = self.simnet.Wire(self.net, self.node, host="10.0.4.%d" % (self.n_wires % 200 + 2))
+        self.wire.greet()
+        if self.open_request:
+            n0 = len(self.wire.received)
+            self.node.cm.started_at = self.simnet.CLOCK.now          # start-up phase: the node fetches actively
+            self.net.step(self.node)
+            self.net.drain(None, only=[self.node])
+            self.wire.collect()
+            if any(isinstance(m, self.M.GetBlocksMessage) for _h, m in self.wire.received[n0:]):
+                self.opened += 1
+
+    def add_block(self, skb, now):
+        self.simnet.CLOCK.now = now
+        if not self.wire.connected:
+            self.connect()
+        before = self.node.cm.coinstate.block_by_hash.get(skb.hash())
+        self.wire.send(self.M.DataMessage(self.M.DATA_BLOCK, skb))
+        self.wire.deliver()
+        self.net.drain(None, only=[self.node])
+        after = self.node.cm.coinstate.block_by_hash.get(skb.hash())
+        if after is not None and (before is None or after.serialize() != before.serialize()) and after.serialize() == skb.serialize():
+            return self
+        raise Refused("the node did not take the delivered block into its chain state")
+
+    def __getattr__(self, name):
+        return getattr(self.node.cm.coinstate, name)
+
+
 class Run:
     """executes a case against the code under test; collects failures (kind, sig, msg)"""
 
@@ -154,6 +207,8 @@ class Run:
         else:
             self.world = build.World(cfg)
             self.cs = CoinState.zero()
+            if case.get("relay"):
+                self.cs = NodeState(open_request=bool(case["relay"].get("open_request")))
         self.fails = []
         self.before = {}
         self.stats = {}
@@ -208,7 +263,7 @@ class Run:
         from skepticoin import blockstore as BS
         from skepticoin.scripts import utils as U
         led = self.world.uni
-        if self.case.get("deep") or isinstance(self.cs, type(None)) or not hasattr(self.cs, "add_block_no_validation"):
+        if self.case.get("deep") or isinstance(self.cs, NodeState):
             return
         blocks = [led.nodes[i].blk for i in led.order[1:]]
         seen = set()
@@ -364,7 +419,8 @@ class Run:
                 self.stat("mut:" + tag)
                 self.stat("mutated")
             has_forks = len(self.world.uni.tips()) > 1
-            if before != after:
+            if before != after and not (isinstance(self.cs, NodeState) and cs2 is not None):
+                # (on the relay path the "receiver" is the node: its served state legitimately changes when it accepts)
                 if "C01" in self.focus:
                     self.fail("state_changed", "state-changed-by-attempt",
                               "receiver state changed by add_block(%s) (%s)" % (op["label"], "accepted" if cs2 else "rejected: %r" % err))
@@ -452,7 +508,7 @@ def shrink_case(case, focus, sig, budget_s):
     return dict(case, ops=ops)
 
 
-def drive(res, seed_, n_hist, tier, focus, cats, pid, n_blocks=(6, 14), p_mut=0.4, p_deep=0.0, deep_halving=False, deep_vlq_edge=0.0, **opts):
+def drive(res, seed_, n_hist, tier, focus, cats, pid, n_blocks=(6, 14), p_mut=0.4, p_deep=0.0, deep_halving=False, deep_vlq_edge=0.0, p_relay=0.12, **opts):
     """Hypothesis is the generator engine; failures are collected (bucketed by signature) and shrunk afterwards."""
     found = {}
 
@@ -472,6 +528,12 @@ def drive(res, seed_, n_hist, tier, focus, cats, pid, n_blocks=(6, 14), p_mut=0.
             res.count("deep_histories")
         else:
             case = gen_case(rnd, cfg, nb, p_mut, cats, **dict({"p_twin": 0.12, "p_restart": 0.04}, **opts))
+            if rnd.random() < p_relay:
+                # the same history, but every candidate is DELIVERED to a simulated node by a peer (relay path); in half of
+                # these the node has an unanswered block request outstanding with that peer
+                case["relay"] = {"open_request": rnd.random() < 0.5}
+                case.pop("horizon", None)
+                res.count("relayed_histories")
         run = Run(case, focus)
         try:
             fails = run.execute()
